@@ -29,7 +29,7 @@ def run(ctx):
     if ctx.replay:
         return progcheck.replay_file(ctx, ctx.replay)
     thorough = ctx.tier == "thorough"
-    for dev in ("AnnNoFilter", "FuncAnnNoFilter", "CheckNoFilter", "TonlInTests", "TonlPkgLevelInTests", "FirstFile", "TestSuffixFirst", "PkgWideImports", "FactsWithoutTestAnns"):
+    for dev in ("AnnNoFilter", "FuncAnnNoFilter", "CheckNoFilter", "TonlInTests", "TonlPkgLevelInTests", "FirstFile", "TestSuffixFirst", "PkgWideImports", "FactsWithoutTestAnns", "ImplAtMethod", "PhysicalName"):
         r = ctx.tlc("Files", cfg(emit=False, dev='{"%s"}' % dev, live=False), label="c14_dev_" + dev, allow_violation=True, count=False)
         if r["violated"] is None:
             raise vlib.ToolError("deviation %s violates nothing: vacuous" % dev)
